@@ -390,15 +390,28 @@ func ruleIndexBound(c *eng.Ctx) {
 			if !ok {
 				return
 			}
-			b, ok := ia.Index.(*ssa.BinOp)
-			if !ok || b.Op != token.ADD {
-				return
+			pairRead := false
+			if b, ok := ia.Index.(*ssa.BinOp); ok && b.Op == token.ADD {
+				if k, isC := eng.ConstInt(b.Y); isC && k == 1 {
+					if _, isInd := eng.Induction(ia.Index); !isInd { // not the rotated range index of a `for i := range` loop
+						pairRead = true
+					}
+				}
 			}
-			if k, isC := eng.ConstInt(b.Y); !isC || k != 1 {
-				return
+			// the same read written on a remainder slice: pairs[1] where pairs = pairs[2:] around the loop
+			if k, isC := eng.ConstInt(ia.Index); isC && k == 1 {
+				if ph, ok := ia.X.(*ssa.Phi); ok && isLoopCarried(ph) {
+					for _, e := range ph.Edges {
+						if sl, ok := e.(*ssa.Slice); ok && sl.X == ssa.Value(ph) {
+							if lo, isC := eng.ConstInt(sl.Low); isC && lo == 2 {
+								pairRead = true
+							}
+						}
+					}
+				}
 			}
-			if _, isInd := eng.Induction(ia.Index); isInd {
-				return // the rotated range index of a `for i := range` loop, not index[i+1]
+			if !pairRead {
+				return
 			}
 			even := eng.GuardedBy(fn, ia.Block(), func(f eng.Fact) bool {
 				op, x, y, ok := f.Cmp()
@@ -689,8 +702,105 @@ func ruleRecGuard(c *eng.Ctx) {
 			c.Check(okG, R, key, gf.Pos(), g.kind+" guard on "+g.what+" in "+g.fn, "the recursion over file-controlled references/nesting is no longer guarded ("+g.kind+" guard on "+g.what+" in "+g.fn+" not found): a self-referencing or deeply nested input overflows the stack, which aborts the process")
 			continue
 		}
+		// a cycle that is not listed (a loop turned into recursion, a recursive method turned into a closure,
+		// a renamed function): accepted when a guard can be shown structurally in one of its members
+		if how, ok := genericRecGuard(scc); ok {
+			c.Ok(R, key, pos, "unlisted cycle with a structural guard: "+how)
+			continue
+		}
 		c.Viol(R, key, pos, "new recursive cycle in the call graph that is neither guarded nor classified as recursion over a materialised tree")
 	}
+}
+
+// genericRecGuard looks for a guard in the members of a recursive cycle without relying on names:
+// (set) a membership test on a map (m[k] read) whose negative/positive edge leaves, together with an insertion
+// into the same map, or (depth) a comparison of an integer parameter with a bound together with a call inside
+// the cycle that passes that parameter + 1 in the same position (or a counter field that is incremented).
+func genericRecGuard(scc []*ssa.Function) (string, bool) {
+	in := map[*ssa.Function]bool{}
+	for _, f := range scc {
+		in[f] = true
+	}
+	root := func(v ssa.Value) ssa.Value {
+		for i := 0; i < 6; i++ {
+			switch x := v.(type) {
+			case *ssa.UnOp:
+				if x.Op == token.MUL {
+					v = x.X
+					continue
+				}
+			case *ssa.ChangeType:
+				v = x.X
+				continue
+			}
+			break
+		}
+		return v
+	}
+	for _, f := range scc {
+		// set guard
+		var looked, inserted []ssa.Value
+		eng.Instrs(f, false, func(i ssa.Instruction) {
+			switch x := i.(type) {
+			case *ssa.Lookup:
+				if _, isMap := x.X.Type().Underlying().(*types.Map); isMap {
+					looked = append(looked, root(x.X))
+				}
+			case *ssa.MapUpdate:
+				inserted = append(inserted, root(x.Map))
+			}
+		})
+		for _, l := range looked {
+			for _, m := range inserted {
+				if l == m || eng.SameValue(l, m) {
+					return "visited/in-progress map tested and filled in " + eng.FuncName(f), true
+				}
+			}
+		}
+		// depth guard on a parameter
+		for pi, p := range f.Params {
+			bt, ok := p.Type().Underlying().(*types.Basic)
+			if !ok || bt.Info()&types.IsInteger == 0 {
+				continue
+			}
+			compared := false
+			eng.Instrs(f, false, func(i ssa.Instruction) {
+				if b, ok := i.(*ssa.BinOp); ok {
+					switch b.Op {
+					case token.GTR, token.GEQ, token.LSS, token.LEQ:
+						if b.X == ssa.Value(p) || b.Y == ssa.Value(p) {
+							if _, isIf := b.Block().Instrs[len(b.Block().Instrs)-1].(*ssa.If); isIf {
+								compared = true
+							}
+						}
+					}
+				}
+			})
+			if !compared {
+				continue
+			}
+			for _, g := range scc {
+				found := false
+				eng.Instrs(g, false, func(i ssa.Instruction) {
+					ci, ok := i.(ssa.CallInstruction)
+					if !ok || ci.Common().StaticCallee() != f || pi >= len(ci.Common().Args) {
+						return
+					}
+					if b, ok := ci.Common().Args[pi].(*ssa.BinOp); ok && b.Op == token.ADD {
+						if k, isC := eng.ConstInt(b.Y); isC && k >= 1 {
+							if _, isPar := b.X.(*ssa.Parameter); isPar {
+								found = true
+							}
+						}
+					}
+				})
+				if found {
+					return "depth parameter " + p.Name() + " of " + eng.FuncName(f) + " is bounded and passed on as +1", true
+				}
+			}
+		}
+	}
+	return "", false
 }
 
 // ---------------------------------------------------------------- loops following references
@@ -734,6 +844,22 @@ func ruleRefLoops(c *eng.Ctx) {
 				ok = true
 			}
 		})
+		if !ok {
+			// the walk written as bounded recursion instead of a loop
+			for _, h := range eng.Cluster(fn, 2) {
+				self := false
+				for _, ci := range eng.Calls(h, false, func(string, ssa.CallInstruction) bool { return true }) {
+					if ci.Common().StaticCallee() == h {
+						self = true
+					}
+				}
+				if self {
+					if _, g := genericRecGuard([]*ssa.Function{h}); g {
+						ok = true
+					}
+				}
+			}
+		}
 		c.Check(ok, R, "pages.(*Page).inheritedAttr#bound", fn.Pos(), "every trip around the /Parent walk passes the depth bound", "the /Parent walk can go around without passing its depth bound: a cyclic /Parent chain loops forever")
 	}
 	if fn := c.P.Func("core.(*XRefParser).ParseAllXRefs"); fn == nil {
